@@ -502,6 +502,23 @@ func Main() {
 	}
 	run.Extra("corpus_candidates_by_kind", candCount)
 
+	excluded := probeCorpus(run, wd, cands)
+	run.Extra("faces_excluded_by_probe", excluded)
+	for k, l := range cands {
+		var keep []faceID
+		for _, id := range l {
+			if _, bad := excluded[id.String()]; !bad {
+				keep = append(keep, id)
+			}
+		}
+		cands[k] = keep
+	}
+	for _, k := range slotKinds {
+		if len(cands[k]) == 0 {
+			run.Note("no usable corpus font of kind %q (slot left out of every round)", k)
+		}
+	}
+
 	var jobs []*job
 	per := (nRounds + raceChildren - 1) / raceChildren
 	for c := 0; c*per < nRounds; c++ {
@@ -532,7 +549,7 @@ func Main() {
 	judge(run, all, t)
 
 	// ---- evidence
-	var rounds, goroutines, panics int
+	var rounds, goroutines, panics, roundSamples int
 	var ops, ovlOps int64
 	fontsByKind := map[string]map[string]bool{}
 	var concMs, soloMs, loadMs int64
@@ -563,7 +580,8 @@ func Main() {
 			for k, n := range rc.OpCounts {
 				run.CoverN("op="+k, int64(n))
 			}
-			if run.WantSample() && (rc.Round < 2 || rc.N == 64) {
+			if roundSamples < 3 && (rc.Round < 2 || rc.N == 64) {
+				roundSamples++
 				run.Sample(map[string]any{"round": rc.Round, "goroutines": rc.N, "gomaxprocs": rc.Procs, "fonts": rc.Fonts,
 					"operations": rc.Ops, "panics_recovered": rc.Panics, "concurrent_ms": rc.ConcMs, "alone_ms": rc.SoloMs})
 			}
@@ -658,7 +676,8 @@ func Main() {
 func level() vrun.Level {
 	return vrun.Level{
 		Level: "exploration",
-		Rule: "evaluations = goroutine programs executed in the race pass (each " + strconv.Itoa(opsPerProgram) + " operations, each compared with the same program run alone). " +
+		Rule: "evaluations = goroutine programs executed in the race pass (each " + strconv.Itoa(opsPerProgram) + " operations, each compared with the same program run alone afterwards in the same process; in 64-goroutine rounds 16 distinct programs are each run by 4 goroutines). " +
+			"A child process that observes no race writes no race log file, so race_log_files_read=0 is the normal outcome; coverage.selftest shows that a deliberate harness race did reach a log file and the parser. " +
 			"distinct_nontrivial = distinct (operation kind A, operation kind B, font kind slot) triples observed simultaneously active on the same shared font by the atomic active-operation table of the second pass; floor " + strconv.Itoa(pairFloor) + ". " +
 			"It is forced to 0 (run inconclusive) when coverage.inconclusive_reason is present: harness-only race report, race detector self-test failure, child death, watchdog.",
 		Assumptions: []string{
@@ -720,4 +739,90 @@ func replay(run *vrun.Run, wd string) {
 		fmt.Printf("INCONCLUSIVE property=C17 %s\n", f)
 	}
 	run.Finish(vrun.Level{Level: "exploration", Rule: "replay"})
+}
+
+// probeCorpus runs probeFace over every candidate face in child processes and
+// returns the faces to leave out, with the reason. A face on which the probe
+// child dies or stalls is left out as well.
+func probeCorpus(run *vrun.Run, wd string, cands map[string][]faceID) map[string]string {
+	seen := map[string]bool{}
+	var faces []faceID
+	for _, k := range slotKinds {
+		for _, id := range cands[k] {
+			if !seen[id.String()] {
+				seen[id.String()] = true
+				faces = append(faces, id)
+			}
+			if k == "collection" {
+				id2 := faceID{id.File, id.Index + 1}
+				if !seen[id2.String()] {
+					seen[id2.String()] = true
+					faces = append(faces, id2)
+				}
+			}
+		}
+	}
+	sort.Slice(faces, func(i, j int) bool { return faces[i].String() < faces[j].String() })
+	excluded := map[string]string{}
+	var mu sync.Mutex
+	const procs = 16
+	var wg sync.WaitGroup
+	probed := 0
+	for c := 0; c < procs; c++ {
+		var mine []faceID
+		for i := c; i < len(faces); i += procs {
+			mine = append(mine, faces[i])
+		}
+		wg.Add(1)
+		go func(c int, mine []faceID) {
+			defer wg.Done()
+			for attempt := 0; len(mine) > 0 && attempt < 50; attempt++ {
+				j := &job{name: fmt.Sprintf("probe%02d", c), watchdog: 15 * time.Minute, stall: 90 * time.Second,
+					spec: childSpec{Mode: "probe", Seed: run.Seed, Faces: mine}}
+				j.run(wd)
+				done := map[string]bool{}
+				open := ""
+				mu.Lock()
+				for _, r := range j.recs {
+					switch r.Type {
+					case "pbegin":
+						open = r.Face
+					case "pend":
+						open = ""
+						done[r.Face] = true
+						probed++
+						if r.Flag != "" {
+							excluded[r.Face] = r.Flag
+						}
+					}
+				}
+				if open != "" {
+					excluded[open] = "probe did not finish (" + j.killReason + j.exitNote + ")"
+					done[open] = true
+				}
+				mu.Unlock()
+				if j.done {
+					return
+				}
+				var rest []faceID
+				for _, id := range mine {
+					if !done[id.String()] {
+						rest = append(rest, id)
+					}
+				}
+				if len(rest) == len(mine) { // no progress at all: give up on this share
+					mu.Lock()
+					for _, id := range rest {
+						excluded[id.String()] = "probe child could not run"
+					}
+					mu.Unlock()
+					return
+				}
+				mine = rest
+			}
+		}(c, mine)
+	}
+	wg.Wait()
+	run.Extra("faces_probed", probed)
+	return excluded
 }
